@@ -13,6 +13,7 @@ pub mod c10;
 pub mod c11;
 pub mod c14;
 pub mod c15;
+pub mod c16;
 
 pub fn run(id: &str, eng: &Engine) {
     match id {
@@ -28,6 +29,7 @@ pub fn run(id: &str, eng: &Engine) {
         "C11" => c11::run(eng),
         "C14" => c14::run(eng),
         "C15" => c15::run(eng),
+        "C16" => c16::run(eng),
         _ => {
             println!("INCONCLUSIVE unknown property {id}");
             std::process::exit(2);
@@ -49,6 +51,7 @@ pub fn replay(id: &str, eng: &Engine, stage: &str, case: &Value) -> CaseResult {
         "C11" => c11::replay(eng, stage, case),
         "C14" => c14::replay(eng, stage, case),
         "C15" => c15::replay(eng, stage, case),
+        "C16" => c16::replay(eng, stage, case),
         _ => Err(Failure::new("machinery", format!("unknown property {id}"))),
     }
 }
